@@ -194,6 +194,9 @@ class Result:
                 self.answers.append(canon_answer(item[1:]))
             elif item[0] == "end":
                 self.end = " ".join(item[1:])
+                # a step that does not return: the model runs out of fuel, the harness hits its inner cap
+                if self.end in ("oof", "innercap"):
+                    self.end = "diverged"
             elif item[0] == "probes":
                 self.probes = [sx(x) for x in item[1:]]
 
@@ -267,10 +270,12 @@ class Gen:
             return ["comp", tag] + [self.term(scope, d - 1) for _ in range(ar)]
         return ["cons", self.term(scope, d - 1), self.term(scope, d - 1)]
 
-    def goal(self, scope, d=None):
+    BFS_ONLY = ("conda", "condu", "onceo", "loop", "never", "always", "anyo_member")
+
+    def goal(self, scope, d=None, dfs=False):
         r = self.r
         d = self.depth if d is None else d
-        kinds = [k for k in self.allow if d > 0 or k in ("eq", "neq", "true", "false")]
+        kinds = [k for k in self.allow if (d > 0 or k in ("eq", "neq", "true", "false")) and not (dfs and k in self.BFS_ONLY)]
         k = r.choice(kinds)
         if k == "eq":
             return ["eq", self.term(scope), self.term(scope)]
@@ -279,16 +284,17 @@ class Gen:
         if k == "true" or k == "false":
             return k
         if k == "conj":
-            return ["conj"] + [self.goal(scope, d - 1) for _ in range(r.randint(1, 3))]
+            return ["conj"] + [self.goal(scope, d - 1, dfs) for _ in range(r.randint(1, 3))]
         if k == "fresh":
             names = [self.fresh_name() for _ in range(r.randint(1, 2))]
-            return ["fresh", names] + [self.goal(scope + names, d - 1) for _ in range(r.randint(1, 3))]
+            return ["fresh", names] + [self.goal(scope + names, d - 1, dfs) for _ in range(r.randint(1, 3))]
         if k in ("cond", "conda", "condu", "onceo", "loop", "dfs"):
             n = r.randint(1, 3)
+            inner_dfs = dfs or k == "dfs"
             clauses = []
             for _ in range(n):
                 m = r.randint(1, 2)
-                gs = [self.goal(scope, d - 1) for _ in range(m)]
+                gs = [self.goal(scope, d - 1, inner_dfs) for _ in range(m)]
                 clauses.append(gs[0] if m == 1 and r.random() < 0.6 else ["conj"] + gs)
             return [k] + clauses
         if k == "member":
@@ -297,5 +303,9 @@ class Gen:
             return ["lib", "append", self.term(scope, 1), self.term(scope, 1),
                     ["list"] + [r.choice(self.consts) for _ in range(r.randint(0, 3))]]
         if k == "closure":
-            return ["closure"] + [self.goal(scope, d - 1) for _ in range(r.randint(1, 2))]
+            return ["closure"] + [self.goal(scope, d - 1, dfs) for _ in range(r.randint(1, 2))]
+        if k == "never":
+            return ["lib", "never"]
+        if k == "always":
+            return ["lib", "always"]
         raise ValueError(k)
